@@ -48,7 +48,7 @@ def check_and_replay(res, name, c, ov, invariants, properties, own, probe, depth
     if full:
         res.model_check('ResourcesMC', name + '_noview', c, invariants=invariants, properties=properties, overrides=ov)
     r, g = res.model_check('ResourcesMC', name, c, invariants=invariants, properties=properties, overrides=ov,
-                           view='View', dump=True, count=not full)
+                           dump=True, count=not full)
     depth = int(c['MaxDepth'])
 
     def factory():
@@ -71,7 +71,7 @@ def check_and_replay(res, name, c, ov, invariants, properties, own, probe, depth
 def switch_run(res, name, c, ov, invariants, properties, expect):
     """Non-vacuity: with one switch at its as-implemented value TLC must report one of `expect`."""
     res.model_check('ResourcesMC', name, c, invariants=invariants, properties=properties, overrides=ov,
-                    view='View', expect_violation=expect, count=False)
+                    expect_violation=expect, count=False)
 
 
 def note_leniencies(res, items):
@@ -89,7 +89,7 @@ def replay_file(res, path, configs):
     if name not in configs:
         raise common.MachineryError('replay file names unknown configuration %r' % name)
     c, ov, own, probe = configs[name]
-    r, g = res.model_check('ResourcesMC', name, c, overrides=ov, view='View', dump=True)
+    r, g = res.model_check('ResourcesMC', name, c, overrides=ov, dump=True)
     labels = [(n, _untuple(a)) for n, a in blob['detail']['labels']]
     init = blob['detail'].get('init_state')
     start = next((i for i in g.init if tla.to_json(g.states[i]) == init), g.init[0])
